@@ -250,7 +250,9 @@ func setDeadline(ctx context.Context, conn net.Conn) context.CancelFunc {
 
 func setWriteDeadline(ctx context.Context, conn net.Conn) context.CancelFunc {
 	cancelCtx, cancel := context.WithCancel(context.Background())
+	done := make(chan struct{})
 	go func() {
+		defer close(done)
 		select {
 		case <-ctx.Done():
 			/* #nosec */
@@ -261,7 +263,16 @@ func setWriteDeadline(ctx context.Context, conn net.Conn) context.CancelFunc {
 		case <-cancelCtx.Done():
 		}
 	}()
-	return cancel
+	return func() {
+		cancel()
+		// Wait until the helper has finished, ie. until the deadline can no longer
+		// be armed on behalf of this call.
+		// The caller still holds the output lock at this point; if the deadline
+		// could be armed after the lock has been released, for instance because
+		// ctx is canceled just as the write finishes, it would fail the write of
+		// whoever takes the lock next.
+		<-done
+	}
 }
 
 func negotiateSession(ctx context.Context, location, origin jid.JID, rw io.ReadWriter, state SessionState, negotiate Negotiator) (*Session, error) {
